@@ -1964,9 +1964,11 @@ class SetTo(Action, HasDefaultDebugInfo):
     def debug_lookup(self, tag: DTAG):
         if tag == DTAG.NAME:
             if self.value_expr.is_literal():
-                return "set into {} {}".format(ProgramData.lookup(self.into_storage, DTAG.NAME), self.value_expr.get_literal_result())
-            else:
-                return "set into {}".format(ProgramData.lookup(self.into_storage, DTAG.NAME))
+                try:
+                    return "set into {} {}".format(ProgramData.lookup(self.into_storage, DTAG.NAME), self.value_expr.get_literal_result())
+                except (ArithmeticError, ValueError):
+                    pass # constant expression without a value (division by zero, negative shift count): describe it like a non-constant one
+            return "set into {}".format(ProgramData.lookup(self.into_storage, DTAG.NAME))
         elif tag == DTAG.STRICT_TIMING_REASON:
             if not self.is_timing_strict():
                 return None
